@@ -52,6 +52,20 @@ func commentBody(c comment) string {
 func commentText(c comment) string {
 	b := commentBody(c)
 	switch {
+	case c.Sp == "bare": // nothing but the marker
+		if c.M == "/*" {
+			return "/**/"
+		}
+		return c.M
+	case c.Sp == "run3":
+		return "###" + b
+	case c.Sp == "mix": // the other family's character right after the marker
+		if c.M == "#" {
+			return "#/" + strings.TrimPrefix(b, " ")
+		}
+		return "//#" + strings.TrimPrefix(b, " ")
+	case c.Sp == "star":
+		return "#*" + strings.TrimPrefix(b, " ")
 	case c.M == "/*" && c.Sp == "twolines":
 		return "/*" + b + "\n   second line */"
 	case c.M == "/*":
@@ -62,20 +76,23 @@ func commentText(c comment) string {
 	return c.M + b
 }
 
-// canonical form of a COMMENT token literal: marker class and payload
+// canonical form of a COMMENT token literal: marker class and payload.  The marker of a line comment is its first
+// character class (# or //); the payload is what follows the leading run of marker characters of either family
+// (comment_style rewrites that run, and `#/x` -> `//x` keeps every character of the text).
 func canonComment(lit string) (m, body string) {
 	switch {
 	case strings.HasPrefix(lit, "/*"):
 		// the indentation of the continuation line of a block comment is layout, not text
-		b := strings.TrimSuffix(strings.TrimPrefix(lit, "/*"), " */")
+		b := strings.TrimSuffix(strings.TrimPrefix(lit, "/*"), "*/")
+		b = strings.TrimSuffix(b, " ")
 		if i := strings.Index(b, "\n"); i >= 0 && strings.TrimSpace(b[i:]) == "second line" {
 			b = b[:i]
 		}
 		return "/*", b
 	case strings.HasPrefix(lit, "//"):
-		return "//", strings.TrimLeft(lit, "/")
+		return "//", strings.TrimLeft(lit, "/#")
 	case strings.HasPrefix(lit, "#"):
-		return "#", strings.TrimLeft(lit, "#")
+		return "#", strings.TrimLeft(lit, "#/")
 	}
 	return "?", lit
 }
